@@ -117,7 +117,8 @@ static void viol(const std::string& cls, const std::string& summary) {
   R.violation(std::move(v));
 }
 static std::string sv(const char* d, size_t n) {
-  if (!d) return "(null," + std::to_string(n) + ")";
+  if (!d && n) return "(null pointer, length " + std::to_string(n) + ")";
+  if (!d) return "(null)";
   return "\"" + show(std::string_view(d, std::min<size_t>(n, 200))) + "\"(" + std::to_string(n) + ")";
 }
 static std::string sv(std::string_view s) { return sv(s.data(), s.size()); }
@@ -193,7 +194,8 @@ static long new_leaks() {
   long fresh = total - g_leaks_reported;
   if (fresh > 0) {
     g_leaks_reported = total;
-    fprintf(stderr, "%.6000s\n", rep.c_str());
+    static int forwarded = 0;  // the first reports are enough to see the allocation stacks
+    if (forwarded++ < 3) fprintf(stderr, "%.6000s\n", rep.c_str());
     return fresh;
   }
   return 0;
